@@ -641,6 +641,20 @@ func genC09Plan(r *zsim.Rng) *sysPlan {
 		p.Events = append(p.Events, sysEvent{Kind: "settle"}, sysEvent{Kind: "feed", DelayMs: r.Intn(30)})
 	}
 	p.Events = append(p.Events, sysEvent{Kind: "settle"})
+	if !hasArg(p.Args, "--no-input") && r.Chance(1, 8) {
+		// the query becomes the text of a line outside ASCII, is edited in place, and that line is accepted:
+		// what is printed is the record, whatever was done to the query
+		p.Args = append(p.Args, "--bind", "f12:replace-query", "--bind", "f8:beginning-of-line", "--bind", "f9:delete-char", "--bind", "f11:backward-delete-char", "--bind", "ctrl-]:clear-query")
+		ch := pick(r, "é", "日", "ö")
+		p.Events = append(p.Events, sysEvent{Kind: "keys", Keys: "ctrl-]", Tag: "clear-query"}, sysEvent{Kind: "keys", Keys: ch, Tag: "char:" + ch}, sysEvent{Kind: "settle"},
+			sysEvent{Kind: "keys", Keys: "f12", Tag: "replace-query"}, sysEvent{Kind: "settle"})
+		if r.Bool() {
+			p.Events = append(p.Events, sysEvent{Kind: "keys", Keys: "f8", Tag: "beginning-of-line"}, sysEvent{Kind: "keys", Keys: "f9", Tag: "delete-char"})
+		} else {
+			p.Events = append(p.Events, sysEvent{Kind: "keys", Keys: "f11", Tag: "backward-delete-char"}, sysEvent{Kind: "keys", Keys: "f8", Tag: "beginning-of-line"}, sysEvent{Kind: "keys", Keys: "f9", Tag: "delete-char"})
+		}
+		p.Events = append(p.Events, sysEvent{Kind: "settle"})
+	}
 	if r.Chance(2, 3) {
 		p.Events = append(p.Events, sysEvent{Kind: "keys", Keys: pick(r, "enter", "enter", "f5", "f6"), DelayMs: r.Intn(20)})
 	}
